@@ -1,5 +1,6 @@
 import Heathcliff.Proofs.C18
 import Heathcliff.Proofs.GenMpRlk
+import Mathlib.Tactic.Choose
 
 /- C18 — multiparty protocols agree across parties and message orders, keep plaintexts.
    Property theorems only; helper lemmas are in Heathcliff/Proofs/C18.lean.
@@ -456,6 +457,47 @@ theorem gen_collective_pk (n : Nat) (sch : Scheme) (t : Nat) (s e : Nat → A) (
     simp only [genmp_ok_bind, genmp_reveal_finish] at hrun ⊢
     rw [hrun, Finset.sum_congr rfl (fun i _ => hp i)]; rfl
 
+/-- COLLECTIVE RELINEARISATION KEY through the generated `new` / `step2` / `finish` (n parties, K key primes, K-1 decomposition indices;
+    common tape = a_0 … a_{K-2}, party i's own tape = (u_ij, e0_ij, e1_ij)_j then (e2_ij, e3_ij)_j; `R0 j`, `R1 j`, `P0 j`, `P1 j` are the
+    reveal objects after the deliveries - by `gen_run` + `finish_sum` they finish with the sums over all parties, which is all that is
+    assumed about them): all three generated functions succeed, and the assembled key j satisfies
+        k0_j + k1_j·s = s²·w_j + ( s·E0_j + u_j·E1_j + E2_j + E3_j ),   s = Σ s_i, u_j = Σ u_ij, E·_j = noise(Σ_i e·_ij) -/
+theorem gen_collective_rlk (n K : Nat) (sch : Scheme) (t : Nat) (s w a : Nat → A) (u e0 e1 e2 e3 : Nat → Nat → A) (pa : A → A → R A) :
+    ∃ (r1 r2 : Nat → Nat → A × A) (k : Nat → A × A),
+      (∀ i, GenMp.rlk_new Ops.ring sch t n i K (s i) w
+              (tapeRem (fun j => [(.uniform, a j)]) [] (K - 1) 0)
+              (tapeRem (fun j => [(.ternary, u i j), (.cbd, e0 i j), (.cbd, e1 i j)]) [] (K - 1) 0)
+            = .ok ((List.range (K - 1)).map (fun j => Reveal.new n i (r1 j i).1),
+                   (List.range (K - 1)).map (fun j => Reveal.new n i (r1 j i).2),
+                   (List.range (K - 1)).map (fun j => (Ops.ring (α := A)).toNtt (u i j)), [], [])) ∧
+      (∀ i (R0 R1 : Nat → Reveal A),
+          (∀ j, j < K - 1 → (R0 j).finish Ops.ring = .ok (∑ x ∈ range n, (r1 j x).1)) →
+          (∀ j, j < K - 1 → (R1 j).finish Ops.ring = .ok (∑ x ∈ range n, (r1 j x).2)) →
+          GenMp.rlk_step2 Ops.ring sch t n i K (s i) pa ((List.range (K - 1)).map R0) ((List.range (K - 1)).map R1)
+              ((List.range (K - 1)).map (fun j => (Ops.ring (α := A)).toNtt (u i j)))
+              (tapeRem (fun j => [(.cbd, e2 i j), (.cbd, e3 i j)]) [] (K - 1) 0)
+            = .ok ((List.range (K - 1)).map (fun j => Reveal.new n i (r2 j i).1),
+                   (List.range (K - 1)).map (fun j => Reveal.new n i (r2 j i).2),
+                   (List.range (K - 1)).map (fun j => u i j - s i),
+                   (List.range (K - 1)).map (fun j => ∑ x ∈ range n, (r1 j x).2), [])) ∧
+      (∀ (P0 P1 : Nat → Reveal A),
+          (∀ j, j < K - 1 → (P0 j).finish Ops.ring = .ok (∑ x ∈ range n, (r2 j x).1)) →
+          (∀ j, j < K - 1 → (P1 j).finish Ops.ring = .ok (∑ x ∈ range n, (r2 j x).2)) →
+          GenMp.rlk_finish Ops.ring K pa ((List.range (K - 1)).map P0) ((List.range (K - 1)).map P1)
+              ((List.range (K - 1)).map (fun j => ∑ x ∈ range n, (r1 j x).2))
+            = .ok ((List.range (K - 1)).map k)) ∧
+      ∀ j, (k j).1 + (k j).2 * (∑ i ∈ range n, s i)
+        = (∑ i ∈ range n, s i) * (∑ i ∈ range n, s i) * w j
+          + ((∑ i ∈ range n, s i) * c18_nz sch t (∑ i ∈ range n, e0 i j) + (∑ i ∈ range n, u i j) * c18_nz sch t (∑ i ∈ range n, e1 i j)
+             + c18_nz sch t (∑ i ∈ range n, e2 i j) + c18_nz sch t (∑ i ∈ range n, e3 i j)) := by
+  have H := fun j => collective_rlk n sch t s (fun i => u i j) (fun i => e0 i j) (fun i => e1 i j) (fun i => e2 i j) (fun i => e3 i j) (a j) (w j)
+  choose r1 r2 k h1 h2 h3 h4 using H
+  refine ⟨r1, r2, k, fun i => ?_, fun i R0 R1 hf0 hf1 => ?_, fun P0 P1 hf0 hf1 => ?_, h4⟩
+  · exact gen_rlk_new Ops.ring sch t n i K (s i) w a (u i) (e0 i) (e1 i) (fun j => r1 j i) [] [] (fun j _ => h1 j i)
+  · exact gen_rlk_step2 Ops.ring pa sch t n i K (s i) (u i) (e2 i) (e3 i) _ _ (fun j => u i j - s i) R0 R1 (fun j => r2 j i) [] hf0 hf1
+      (fun j _ => rfl) (fun j _ => h2 j i)
+  · exact gen_rlk_finish Ops.ring pa K P0 P1 _ _ _ k hf0 hf1 (fun j _ => h3 j)
+
 /-- non-vacuity of the generated-function theorems: two parties over ℤ (BFV reading: noise added as is), c = (100, 7), secrets 2 and 3,
     noises 1 and -1: both constructors succeed, party 0 after receiving party 1's message hands 100 + 7·5 + 0 = 135 to the decoder;
     without the message `finish` refuses -/
@@ -466,5 +508,16 @@ example :
     (do let p ← genRecvAll (Reveal.new 2 0 (15 : ℤ)) []; GenMp.decrypt_finish Ops.ring 100 7 (fun a b => .ok (a + b)) p) = .error .refused ∧
     GenMp.decrypt (Ops.ring (α := ℤ)) .bfv 5 2 0 2 false true true 2 7 [(.ternary, 1)] = .error .other :=
   ⟨rfl, rfl, rfl, rfl, rfl⟩
+
+/-- non-vacuity (relinearisation key, one party over ℤ, K = 3 key primes = 2 decomposition indices, w_j = j+1): the common tape must
+    hold TWO uniform polynomials (3 and 4), the own tape (u, e0, e1) twice; h0_j = -(u_j·a_j) + s·w_j + e0_j, h1_j = s·a_j + e1_j.
+    A common tape with one polynomial only is an error (the code draws a fresh a_j per index). -/
+example :
+    GenMp.rlk_new (Ops.ring (α := ℤ)) .bfv 5 1 0 3 2 (fun j => (j : ℤ) + 1)
+        [(.uniform, 3), (.uniform, 4)] [(.ternary, 1), (.cbd, 0), (.cbd, 1), (.ternary, -1), (.cbd, 1), (.cbd, 0)]
+      = .ok ([Reveal.new 1 0 (-1), Reveal.new 1 0 9], [Reveal.new 1 0 7, Reveal.new 1 0 8], [1, -1], [], []) ∧
+    GenMp.rlk_new (Ops.ring (α := ℤ)) .bfv 5 1 0 3 2 (fun j => (j : ℤ) + 1)
+        [(.uniform, 3)] [(.ternary, 1), (.cbd, 0), (.cbd, 1), (.ternary, -1), (.cbd, 1), (.cbd, 0)] = .error .other :=
+  ⟨rfl, rfl⟩
 
 end HC.C18
